@@ -25,6 +25,7 @@
 #include "galois/config.h"
 #include "galois/substrate/PerThreadStorage.h"
 #include "galois/substrate/CacheLineStorage.h"
+#include "galois/substrate/Verif.h"
 
 namespace galois {
 namespace substrate {
@@ -94,6 +95,7 @@ class LocalTerminationDetection : public TerminationDetection {
     unsigned id     = ThreadPool::getTID();
     TokenHolder& th = *data.getRemote((id + 1) % activeThreads);
     th.tokenIsBlack = isBlack;
+    GALOIS_VERIF_POINT(TERM_PROP_TOKEN);
     th.hasToken     = true;
   }
 
@@ -200,6 +202,7 @@ class TreeTerminationDetection : public TerminationDetection {
       }
     }
 
+    GALOIS_VERIF_POINT(TERM_TREE_PROP);
     // recieved a down token, propagate
     if (th.down_token) {
       th.down_token = false;
